@@ -28,6 +28,12 @@ type Access struct {
 	ReadOnly     bool   `json:"readOnly"`
 	CreateFails  bool   `json:"createFails"`  // the construct function fails if it is called
 	CallbackFail bool   `json:"callbackFail"` // the callback reports an error
+	// PauseAtLookup: if the call finds the cache in the manager, it parks right after that lookup (manager
+	// lock released, cache lock not yet tried) until the schedule moves the transaction again
+	PauseAtLookup bool `json:"pauseAtLookup,omitempty"`
+	// NotFoundErr: a failing callback reports an error that wraps cache.ErrNotFound (what an index gets
+	// from its item cache for a missing item and passes on) instead of a plain one
+	NotFoundErr bool `json:"notFoundErr,omitempty"`
 }
 
 // Program is what one transaction does.
@@ -66,6 +72,8 @@ func genCase(t *rapid.T) Case {
 			}
 			a.CreateFails = rapid.IntRange(0, 7).Draw(t, fmt.Sprintf("cf%d.%d", i, j)) == 0
 			a.CallbackFail = rapid.IntRange(0, 5).Draw(t, fmt.Sprintf("cbf%d.%d", i, j)) == 0
+			a.PauseAtLookup = rapid.IntRange(0, 3).Draw(t, fmt.Sprintf("pal%d.%d", i, j)) == 0
+			a.NotFoundErr = a.CallbackFail && rapid.IntRange(0, 2).Draw(t, fmt.Sprintf("nf%d.%d", i, j)) == 0
 			p.Accesses = append(p.Accesses, a)
 		}
 		p.CommitFail = rapid.IntRange(0, 4).Draw(t, fmt.Sprintf("commitFail%d", i)) == 0
@@ -101,8 +109,8 @@ func (o *object) SizeInMemory() int64 { return o.size }
 type txState int
 
 const (
-	stIdle txState = iota // waiting for the scheduler to let it issue the next call
-	stIssuing             // inside With, not (yet) in the callback
+	stIdle    txState = iota // waiting for the scheduler to let it issue the next call
+	stIssuing                // inside With, not (yet) in the callback
 	stInCallback
 	stCommitting
 	stDone
@@ -125,16 +133,17 @@ type txRun struct {
 }
 
 type world struct {
-	mu        sync.Mutex
-	c         Case
-	mgr       *cache.Manager
-	nextObj   int
-	committed map[string]int
-	owner     map[*object]*txRun // write owner between first write callback and commit
-	inside    map[*object]map[*txRun]bool // transactions currently inside a callback on the object
-	txs       []*txRun
-	violation error
-	trace     []string
+	lookupPauses int
+	mu           sync.Mutex
+	c            Case
+	mgr          *cache.Manager
+	nextObj      int
+	committed    map[string]int
+	owner        map[*object]*txRun          // write owner between first write callback and commit
+	inside       map[*object]map[*txRun]bool // transactions currently inside a callback on the object
+	txs          []*txRun
+	violation    error
+	trace        []string
 }
 
 func (w *world) logf(f string, a ...any) {
@@ -328,6 +337,9 @@ func (w *world) runTx(t *txRun) {
 			t.state = stIssuing
 			if a.CallbackFail {
 				o.dead = true
+				if a.NotFoundErr {
+					return fmt.Errorf("planned failure: item 7: %w", cache.ErrNotFound)
+				}
 				return errPlanned
 			}
 			return nil
@@ -410,6 +422,29 @@ func execCase(c Case) (res vt.Result) {
 		go w.runTx(t)
 		<-t.parked
 	}
+	// the pause point between the lookup of an existing cache and the attempt to lock it
+	lookupFn := func(name string, readOnly bool) {
+		id := goidOf()
+		for _, t := range w.txs {
+			if t.goid != id {
+				continue
+			}
+			w.mu.Lock()
+			pause := t.state == stIssuing && t.step < len(t.prog.Accesses) && t.prog.Accesses[t.step].PauseAtLookup
+			if pause {
+				w.logf("tx%d step %d found cache %s in the manager and pauses before locking it (readOnly=%v)", t.idx, t.step, name, readOnly)
+				w.lookupPauses++
+			}
+			w.mu.Unlock()
+			if pause {
+				t.parked <- struct{}{}
+				<-t.tokens
+			}
+			return
+		}
+	}
+	cache.VerifLookupFn.Store(&lookupFn)
+	defer cache.VerifLookupFn.Store(nil)
 	overlapped, hadFailure, sawBlockedReader := false, false, false
 	// move transaction i one step if it is able to move
 	move := func(i int) bool {
@@ -572,6 +607,7 @@ func execCase(c Case) (res vt.Result) {
 	}
 	_ = sawBlockedReader
 	rec.Count(fmt.Sprintf("maxSize_%d", c.MaxSize), 1)
+	rec.Count("pauses_between_lookup_and_lock", int64(w.lookupPauses))
 	if w.violation != nil {
 		res.Err = fmt.Errorf("%v\ntrace:\n  %s", w.violation, strings.Join(w.trace, "\n  "))
 		// leave the stuck goroutines behind; they hold no shared state with later cases
